@@ -10,7 +10,8 @@ straight-line SSA program per operator and arch, printed by two back ends:
   Gl64_gen.tla       width-parametric TLA+ (EXTENDS Ptx; registers mod Beta = Phi, CC.CF explicit)
   ptx_exec_gen.hpp   C++ (uint32_t/uint64_t, primitives of tools/ptx_prims.hpp) so that full-width cases can be run
 Operators: Add Sub Cneg Mul MulRaw Sqr MulW Red (xa, xb), Red4(t0,t1,t2,t3), and with every register-by-register
-product replaced by a free symbol q_k (in order of first use): MulFree(xa,xb,q1..q4), MulWFree(xa,xb,q1,q2).
+product replaced by a free symbol q_k (in order of first use): MulFree(xa,xb,q1..q4), MulWFree(xa,xb,q1,q2) and, without
+the final to(), MulRawFree, MulWRawFree.
 Anything outside the whitelist raises ParseError (exit 3): callers degrade to 'model not derived from current source'."""
 import hashlib, os, re, shutil, subprocess, sys
 
@@ -420,7 +421,8 @@ class Gen:
 OPS = [('Add', 'add', 'obj', False), ('Sub', 'sub', 'obj', False), ('Cneg', 'cneg', 'bool', False),
        ('Mul', 'muleq', 'obj', False), ('MulRaw', 'mul', 'obj', False), ('Sqr', 'sqr', None, False),
        ('MulW', 'mulweq', 'u32', False), ('Red', 'red', None, False), ('Red4', 'red4', 'arr', False),
-       ('MulFree', 'muleq', 'obj', True), ('MulWFree', 'mulweq', 'u32', True)]
+       ('MulFree', 'muleq', 'obj', True), ('MulWFree', 'mulweq', 'u32', True),
+       ('MulRawFree', 'mul', 'obj', True), ('MulWRawFree', 'mulw', 'u32', True)]
 
 
 def run_op(mem, member, kind, free):
